@@ -21,7 +21,9 @@ def extra(t):
             "reset_modes": t.get("hist", {}).get("reset", {}), "latency_checks": t.get("latency_checks", 0),
             "designs_rejected_by_gatery": t.get("rejected_designs", 0), "stall_cycles": t.get("stall_cycles", 0), "cycles": t.get("cycles", 0),
             "cases_with_holding_circuit": t.get("cases_with_holding_circuit", 0),
-            "autonomous_cases_confirmed_against_lag_twin": t.get("autonomous_checked_against_lag_twin", 0)}
+            "autonomous_cases_confirmed_against_lag_twin": t.get("autonomous_checked_against_lag_twin", 0),
+            "backward_retimed_registers_by_reset_and_enable": t.get("hist", {}).get("backward_retimed_registers", {}),
+            "cases_enable_low_directly_after_reset": t.get("cases_enable_low_after_reset", 0)}
 
 
 vlib.standard_check({
@@ -42,7 +44,9 @@ vlib.standard_check({
     "rule": "generated datapaths (1-4 data inputs of 1-8 bits, 0-2 stall inputs, 1-2 balance groups with all/some/no reset values, clocks with synchronous reset "
             "or power-on initialisation only) of seven classes: stateless logic, two groups, feed-forward registers, autonomous counters, movable registers "
             "(with stricter enables -> enable splitting / holding circuits, entry chains without a group), negative registers with compensating register, "
-            "memory read-port registers; pipestage hints at random places plus pattern seeds (re-convergent fan-out, hints in series, hint before/behind "
+            "memory read-port registers (1-2 memories of read latency 1, 1-2 registers marked allowRetimingBackward behind logic on each read port, reset value x enable in "
+            "all four combinations, reset values the moved logic does not reproduce, several registers per clock and group); enables / stall inputs that stay low for "
+            "1-6 cycles during and directly after reset and toggle later; pipestage hints at random places plus pattern seeds (re-convergent fan-out, hints in series, hint before/behind "
             "anchored registers); each design is built with hints and as reference twin with N explicit input registers, both post-processed by the real "
             "gatery code and simulated for 20-35 cycles with random stall sequences; evaluations = compared (output, cycle) pairs; "
             "non-trivial = designs in which at least one stage was spawned",
